@@ -57,6 +57,8 @@ class Ctx:
         self.work = os.path.join(VERIF, '.work', '%s-%d' % (pid, os.getpid()))
         shutil.rmtree(self.work, ignore_errors=True)
         os.makedirs(self.work)
+        # OpenMDAO writes its per-problem output directories (<name>_out) under OPENMDAO_WORKDIR
+        os.environ['OPENMDAO_WORKDIR'] = self.work
         self.states = 0
         self.transitions = 0
         self.tlc_runs = []
